@@ -27,7 +27,8 @@ MANIFEST = {
             "guard-bounded remaining length, D7 the bytes a callee always accesses through a pointer parameter "
             "fit the object passed at each call site, D8 no size_t length is masked with a zero-extended 32-bit "
             "constant or narrowed without a bound before it is used for control or addressing, D9 caller-supplied "
-            "byte buffers are accessed without alignment assumptions; general memory safety for arbitrary "
+            "byte buffers are accessed without alignment assumptions, D10 a block write of a buffer's whole length "
+            "parameter starts at the buffer and not at an advanced cursor; general memory safety for arbitrary "
             "caller-provided buffer/length combinations is not decided",
     "note": "trusted: clang lowering, irdump GEP/type facts; the interval analysis is a sound "
             "over-approximation, so a reported index range is reachable along CFG paths (path feasibility is "
